@@ -4,7 +4,7 @@
     Run by ocaml/build.sh inside /verif/ocaml (coqc writes model.ml into the current directory). *)
 From Coq Require Extraction ExtrOcamlBasic.
 From Coq Require Import ZArith NArith List.
-From Morlock.Model Require Import Score Bits Attacks Move Position Zobrist Board Abs Search TT SearchBoard Fen Engine EngineSpec UciSeq.
+From Morlock.Model Require Import Score Bits Attacks Move Position Zobrist Board Abs Search TT SearchBoard Fen Engine EngineSpec UciSeq Queries Driver.
 From Morlock.Spec Require Chess Game Minimax.
 Extraction Language OCaml.
 Extraction "model.ml"
@@ -35,4 +35,6 @@ Extraction "model.ml"
   Fen.decode Fen.encode Fen.parse_move Fen.parse_square_str Fen.parse_piece Fen.atoi Fen.itoa Fen.fen_initial
   Engine.eng_reset Engine.eng_move Engine.eng_takeback Engine.eng_position Engine.cmd_position Engine.cmd_ucinewgame
   EngineSpec.setup EngineSpec.smove_of_str EngineSpec.gstate_of_fen EngineSpec.wf_value
-  UciSeq.go_depth UciSeq.u_position UciSeq.iterate.
+  UciSeq.go_depth UciSeq.u_position UciSeq.iterate
+  Driver.obs_ok Driver.obs_counts_ok
+  Queries.find_capture Queries.find_pins Queries.spec_capturers Queries.spec_pins.
